@@ -323,3 +323,12 @@ func Fatal(format string, a ...any) {
 	fmt.Fprintf(os.Stderr, "runner error: "+format+"\n", a...)
 	os.Exit(2)
 }
+
+// Root is the directory of the verification project: $VERIF_ROOT when the dispatcher sets it (it
+// does, to its own directory, so that a copy of the project elsewhere reads its own corpus), else /verif.
+func Root() string {
+	if r := os.Getenv("VERIF_ROOT"); r != "" {
+		return r
+	}
+	return "/verif"
+}
